@@ -17,7 +17,11 @@ import (
 
 func hdrObsLib(h sch.PageHeader) event {
 	e := event{"type": int(h.Type), "ulen": int(h.UncompressedPageSize), "clen": int(h.CompressedPageSize),
-		"nvals": -1, "enc": -1, "denc": -1, "renc": -1, "hasstats": false, "nullcount": -1, "min": "", "max": "", "hasmin": false, "hasmax": false}
+		"nvals": -1, "enc": -1, "denc": -1, "renc": -1, "hasstats": false, "nullcount": -1, "min": "", "max": "", "hasmin": false, "hasmax": false,
+		"hascrc": h.Crc != nil, "crc": int64(0)}
+	if h.Crc != nil {
+		e["crc"] = int64(*h.Crc)
+	}
 	if d := h.DataPageHeader; d != nil {
 		e["nvals"], e["enc"], e["denc"], e["renc"] = int(d.NumValues), int(d.Encoding), int(d.DefinitionLevelEncoding), int(d.RepetitionLevelEncoding)
 		if s := d.Statistics; s != nil {
@@ -38,7 +42,10 @@ func hdrObsLib(h sch.PageHeader) event {
 
 func hdrObsInd(h *pq.PageHdr) event {
 	e := event{"type": h.Type, "ulen": h.Uncomp, "clen": h.Comp, "nvals": -1, "enc": -1, "denc": -1, "renc": -1,
-		"hasstats": false, "nullcount": -1, "min": "", "max": "", "hasmin": false, "hasmax": false}
+		"hasstats": false, "nullcount": -1, "min": "", "max": "", "hasmin": false, "hasmax": false, "hascrc": false, "crc": int64(0)}
+	if v, ok := h.Raw.Int(4); ok {
+		e["hascrc"], e["crc"] = true, v
+	}
 	if h.HasData {
 		e["nvals"], e["enc"], e["denc"], e["renc"] = h.NumValues, h.Enc, h.DefEnc, h.RepEnc
 		if s := h.Stats; s != nil {
@@ -112,7 +119,7 @@ func metaObsInd(f *pq.Footer) event {
 	return event{"version": f.Version, "numrows": f.NumRows, "schema": schemaObs(f.Schema), "rgs": rgs}
 }
 
-func runIntro(file []byte) {
+func runIntro(file []byte, foreign bool) {
 	e := event{"ev": "Intro", "panic": "", "metaerr": "", "hdrerr": ""}
 	ind, err := pq.ParseFooter(file)
 	if err != nil {
@@ -131,6 +138,7 @@ func runIntro(file []byte) {
 		ioffs = append(ioffs, r.Off)
 	}
 	e["imeta"], e["ipages"], e["ioffs"] = metaObsInd(ind), ipages, ioffs
+	e["foreign"] = foreign
 	pan := protect(func() {
 		m, err := parquet.ReadMetaData(bytes.NewReader(file))
 		if err != nil {
